@@ -126,6 +126,8 @@ structure Event where
   id : Nat
   ok : Bool
   world : World
+  /-- the error the child frame returned (for the branch statistics of the driver) -/
+  err : Option Err := none
 
 /-- What `EVMInterpreter.Run` / a frame entry point hands back. `logs` is the
     *returned* log list (`callContext.logs`), distinct from the journaled
@@ -355,20 +357,20 @@ def run (env : Env) (depth : Nat) (ro : Bool) (self : Addr) (w : World) (clogs :
     let r := callFrameK env depth ro self kind target value
       (fun d ro' self' w' => run env d ro' self' w' [] [] body) (precompileOutcome body) w
     run env depth ro self r.world (clogs ++ r.logs)
-      (tr ++ r.trace ++ [{ id := id, ok := r.ok, world := r.world }]) rest
+      (tr ++ r.trace ++ [{ id := id, ok := r.ok, world := r.world, err := r.err }]) rest
   | .create id two salt value init rest =>
     if roBlocked ro (if two then .create2 else .create) value then failWith w tr .writeProtection else
     let r := createFrameK env depth ro self two salt value
       (fun d ro' self' w' => run env d ro' self' w' [] [] init) w
     run env depth ro self r.world (clogs ++ r.logs)
-      (tr ++ r.trace ++ [{ id := id, ok := r.ok, world := r.world }]) rest
+      (tr ++ r.trace ++ [{ id := id, ok := r.ok, world := r.world, err := r.err }]) rest
   | .authcall id authorized authNonce target value body rest =>
     if roBlocked ro .authcall value then failWith w tr .writeProtection else
     -- gasAuthCall (gas_table.go:369-371) warms the target before the opcode executes
     let r := authFrameK env depth ro authorized authNonce target value
       (fun d ro' self' w' => run env d ro' self' w' [] [] body) (precompileOutcome body) (w.addAccess target)
     run env depth ro self r.world (clogs ++ r.logs)
-      (tr ++ r.trace ++ [{ id := id, ok := r.ok, world := r.world }]) rest
+      (tr ++ r.trace ++ [{ id := id, ok := r.ok, world := r.world, err := r.err }]) rest
   | .stake amount rest =>
     if roBlocked ro .stake 0 then failWith w tr .writeProtection else
     run env depth ro self (stakeEffect env self amount w) clogs tr rest
